@@ -37,6 +37,7 @@ EXPECT = {  # subject substring -> checks that should detect the reversal
     "reserved for the bytes that have arrived": ["C03"],
     "no longer parsed by strtol/strtod": ["C03"],
     "no longer overflows for a chunk size": ["C03"],
+    "does not fit an int": ["C03"],
     "without holding the time-outs lock": ["C15"],
     "without holding the queues lock": ["C15"],
     "reads its descriptor before publishing": ["C15"],
